@@ -457,6 +457,8 @@ Definition cond_bound (m : list (list F32.t)) : F32.t :=
 
 (* well conditioned: one step of the byte scale is at least 8 (M+1) ulps of the largest
    partial sum, so the rounding errors of the f32 score and offset (at most about
-   2 M ulp(A)) stay below a quarter of a step *)
+   2 M ulp(A)) stay below a quarter of a step.  A zero factor (constant matrix, or a
+   range that underflows) also counts: every quotient is then 0/0, +inf or -inf and
+   the comparison only depends on the order of the f32 sums, which is monotone. *)
 Definition well_conditioned (m : list (list F32.t)) (factor : F32.t) : bool :=
-  negb (F32.is_nan factor) && F32.le (cond_bound m) factor.
+  negb (F32.is_nan factor) && (F32.eq factor F32.zero || F32.le (cond_bound m) factor).
